@@ -353,4 +353,110 @@ theorem odo_lanes (V : Nat) (hV : 0 < V) (dims : List Nat) (axs : List Ax) (hne 
     simp only [Function.comp_def, Bool.false_eq_true, if_false] at this ⊢
     rw [this, ← List.flatMap_def, flatMap_single]
 
+/-! ### the running counter of the unequal-order binders is the flat index -/
+
+theorem forRange_range (e : Nat) : forRange 0 e 1 = List.range e := by
+  rw [forRange_one]; simp
+
+theorem zipWith_range_eq_map {β : Type} (L : List β) (g : β → Nat) (h : Nat → Nat)
+    (hgh : L.map g = (List.range L.length).map h) :
+    (List.range L.length).zipWith (fun k a => (a, h k)) L = L.map fun a => (a, g a) := by
+  induction L generalizing h with
+  | nil => simp
+  | cons x xs ih =>
+    simp only [List.length_cons, List.range_succ_eq_map, List.map_cons, List.map_map, List.cons.injEq] at hgh
+    simp only [List.length_cons, List.range_succ_eq_map, List.zipWith_cons_cons, List.map_cons, List.zipWith_map_left,
+      List.cons.injEq, hgh.1, true_and]
+    exact ih (fun k => h (k + 1)) (by simpa [Function.comp_def] using hgh.2)
+
+theorem sum_const_range (n c : Nat) : ((List.range n).map fun _ => c).sum = n * c := by
+  induction n with
+  | zero => simp
+  | succ n ihn => rw [List.range_succ, List.map_append, List.sum_append, ihn]; simp [Nat.succ_mul]
+
+/-- the `k`-th state of the odometer (last axis stepping by `V`) has flat index `k * V` -/
+theorem box_flat (V : Nat) (hV : 0 < V) : ∀ (exts : List Nat), exts ≠ [] → V ∣ exts.getLast! →
+    (box (incs exts V)).map (flat exts) = (List.range (box (incs exts V)).length).map (· * V) := by
+  intro exts
+  induction exts with
+  | nil => intro h; exact absurd rfl h
+  | cons e es ih =>
+    intro _ hd
+    cases es with
+    | nil =>
+      simp only [List.getLast!, List.getLast] at hd
+      obtain ⟨q, hq⟩ := hd
+      rw [box_length]
+      simp only [incs, box, List.map_cons, List.map_nil, List.prod_cons, List.prod_nil, Nat.mul_one]
+      rw [hq, Nat.mul_comm V q, forCount_mul q V hV, forRange_step q V hV, flatMap_single (fun a => [a])]
+      simp [List.map_map, Function.comp_def, flat]
+    | cons e' es' =>
+      have hd' : V ∣ (e' :: es').getLast! := by simpa [List.getLast!, List.getLast] using hd
+      have ih' := ih (by simp) hd'
+      have hlen := box_len_mul V hV (e' :: es') (by simp) hd'
+      have hincs : incs (e :: e' :: es') V = (e, 1) :: incs (e' :: es') V := by simp [incs]
+      rw [hincs]
+      simp only [box, List.map_flatMap, List.map_map, Function.comp_def, List.length_flatMap, List.length_map]
+      rw [forRange_range]
+      have hf : ∀ (x : Nat) (as : List Nat), flat (e :: e' :: es') (x :: as) = x * (e' :: es').prod + flat (e' :: es') as := by
+        intro x as; rfl
+      simp only [hf]
+      rw [sum_const_range]
+      have hb := range_blocks (fun k => k * V) (box (incs (e' :: es') V)).length e
+      rw [← hb]
+      congr 1
+      funext x
+      have : (box (incs (e' :: es') V)).map (fun as => x * (e' :: es').prod + flat (e' :: es') as) =
+          ((box (incs (e' :: es') V)).map (flat (e' :: es'))).map (fun y => x * (e' :: es').prod + y) := by
+        rw [List.map_map]; rfl
+      rw [this, ih', List.map_map]
+      apply List.map_congr_left
+      intro k _
+      simp only [Function.comp]
+      rw [← hlen, Nat.add_mul, Nat.mul_assoc]
+
+/-- **binders of unequal order**: reading the right-hand side through the running counter is reading it through
+    the flat index of the multi-index — the two forms of the n-D loops are the same program -/
+theorem odo_flat_eq (V : Nat) (hV : 0 < V) (dims : List Nat) (axs : List Ax) (hne : axs ≠ []) (hext : ∀ a ∈ axs, 0 < a.ext) :
+    odoIters V dims axs true V = odoIters V dims axs false V := by
+  have hepos : ∀ e ∈ axs.map (·.ext), 0 < e := by
+    intro e he; obtain ⟨a, ha, rfl⟩ := List.mem_map.1 he; exact hext a ha
+  have htot : 0 < (axs.map (·.ext)).prod := prod_pos_of _ hepos
+  have hne' : axs.map (·.ext) ≠ [] := by simpa using hne
+  -- for either increment W dividing the last extent the loop output pairs each state with its flat index
+  have key : ∀ W, 0 < W → W ∣ (lastAx axs).ext →
+      odoLoop (incs (axs.map (·.ext)) W) (axs.map (·.ext)).prod W (axs.map (·.ext)).prod 0 (axs.map (fun _ => 0)) =
+        (box (incs (axs.map (·.ext)) W)).map fun a => (a, flat (axs.map (·.ext)) a) := by
+    intro W hW hdvd
+    have hsteps := steps_box (incs (axs.map (·.ext)) W) (incs_pos _ W hW hepos)
+    rw [incs_zeros, List.map_map] at hsteps
+    have hd' : W ∣ (axs.map (·.ext)).getLast! := by rw [lastAx_ext axs hne]; exact hdvd
+    have hlenmul := box_len_mul W hW (axs.map (·.ext)) hne' hd'
+    have hloop := odoLoop_of_steps (incs (axs.map (·.ext)) W) (axs.map (·.ext)).prod W hsteps
+      (axs.map (·.ext)).prod 0
+      (by rw [← hlenmul]; exact Nat.le_mul_of_pos_right _ hW)
+      (by
+        have hL1 : 1 ≤ (box (incs (axs.map (·.ext)) W)).length := by
+          have := hsteps.ne_nil
+          cases hb : box (incs (axs.map (·.ext)) W) with
+          | nil => exact absurd hb this
+          | cons _ _ => simp
+        rw [Nat.zero_add, ← hlenmul]
+        have : (box (incs (axs.map (·.ext)) W)).length = ((box (incs (axs.map (·.ext)) W)).length - 1) + 1 := by omega
+        rw [this, Nat.succ_mul]; simp only [Nat.add_sub_cancel]; omega)
+    have hcomp : (fun (_ : Ax) => (0 : Nat)) = ((fun _ => 0) ∘ fun (x : Ax) => x.ext) := rfl
+    rw [hcomp, hloop]
+    have := zipWith_range_eq_map (box (incs (axs.map (·.ext)) W)) (flat (axs.map (·.ext))) (fun k => k * W)
+      (box_flat W hW _ hne' hd')
+    simpa using this
+  unfold odoIters
+  simp only [List.map_map, Function.comp_def]
+  by_cases hc : (lastAx axs).ext % V = 0 ∧ (lastAx axs).step = 1
+  · simp only [hc, and_self, if_true]
+    rw [key V hV (Nat.dvd_of_mod_eq_zero hc.1), List.map_map, List.map_map]
+    simp [Function.comp_def]
+  · simp only [hc, if_false]
+    rw [key 1 Nat.one_pos (Nat.one_dvd _), List.map_map, List.map_map]
+    simp [Function.comp_def]
+
 end Fastor.ViewWrite
